@@ -83,7 +83,9 @@ def check_c12(lab, outcome, spec, with_bad, salt, backend, pick, limits, leaf_li
         resub = [sub for sub in lab2.submissions if sub[0].endswith(".leaf") and sub[2] == failing_args]
         if not resub:
             return "in a second execution the failed call leaf(...) was not handed to an executor again (outcome %r)" % (outcome2[0],)
-        if outcome2[0] != "error" or str(outcome2[1]) != str(err):
+        pickle_limit = (outcome2[0] == "error" and isinstance(outcome2[1], TypeError) and "cannot pickle" in str(outcome2[1])
+                        and any(fail and caught and mode == 4 for (x, fail, caught, mode) in spec))
+        if not pickle_limit and (outcome2[0] != "error" or str(outcome2[1]) != str(err)):
             return "second execution ended with %r instead of raising the same error" % (outcome2,)
     return None
 
